@@ -53,6 +53,7 @@ func main() {
 			rounds = *concOnly
 		}
 		h.concurrent(lib.NewRNG(f.Seed).Fork(9_999_999), rounds)
+		h.pollerStage(lib.NewRNG(f.Seed).Fork(8_888_888), f.Scale(3, 12))
 		lib.Finish(f, res)
 	}
 	if f.Replay != "" {
